@@ -525,6 +525,46 @@ func runAll(r *Run, specs []HarnessSpec, verifDir, only string) int {
 		fmt.Fprintln(os.Stderr, "TOOL-ERROR", toolErr)
 		return 2
 	}
+	// violations that did not reproduce in-process (state kept by the code under test between executions)
+	// are re-checked twice in fresh processes; only self-contained ones are reported.
+	{
+		var kept []enum.Violation
+		stable, dropped := 0, 0
+		self, _ := os.Executable()
+		for i, v := range viols {
+			if !v.Unstable {
+				stable++
+				kept = append(kept, v)
+				continue
+			}
+			tmp := filepath.Join(verifDir, "replays", fmt.Sprintf(".unstable-%s-%d-%d.json", id, os.Getpid(), i))
+			enum.WriteJSON(tmp, v)
+			ok := true
+			for rep := 0; rep < 2 && ok; rep++ {
+				cmd := exec.Command(self, "-tier", r.Tier, "-verif", verifDir, "-replay", tmp, id)
+				out, _ := cmd.CombinedOutput()
+				if cmd.ProcessState == nil || cmd.ProcessState.ExitCode() != 1 || !strings.Contains(string(out), "key="+v.Fails[0].Key+" ") {
+					ok = false
+				}
+			}
+			os.Remove(tmp)
+			if ok {
+				v.Fails[0].Msg += " [history-dependent: reproduces in a fresh process, not when re-executed in the exploring process]"
+				kept = append(kept, v)
+				stable++
+			} else {
+				dropped++
+			}
+		}
+		if dropped > 0 && stable == 0 {
+			fmt.Fprintf(os.Stderr, "TOOL-ERROR NONDETERMINISM: %d failures did not reproduce, neither in-process nor in a fresh process\n", dropped)
+			return 2
+		}
+		if dropped > 0 {
+			fmt.Fprintf(os.Stderr, "note: %d follow-up failures caused by state carried over from earlier executions were dropped (not self-contained)\n", dropped)
+		}
+		viols = kept
+	}
 	// classify violations
 	exit := 0
 	unlisted := 0
